@@ -308,6 +308,17 @@ func (st *state) circle(v *jdoc.Value, ref, child *Ref) {
 	if props == nil {
 		return
 	}
+	if v.Count("properties") > 1 {
+		// duplicated properties: which one carries the convention is not specified
+		for _, m := range v.Obj {
+			if m.Key == "properties" && m.Val.Kind == jdoc.Object {
+				if t := m.Val.Get("type"); t != nil && t.Kind == jdoc.String && t.Str == "Circle" {
+					st.mark("Circle convention with duplicated properties")
+					return
+				}
+			}
+		}
+	}
 	if props.Kind != jdoc.Object {
 		return
 	}
